@@ -86,7 +86,8 @@ inductive Word where
   | stored (size : Nat) (raw : Bool)         -- on-disk size, bit 24 set ⇔ `raw` (stored uncompressed)
   deriving DecidableEq, Repr
 
-def rawBit : Nat := 16777216                 -- `1 << 24`
+/-- `1 << 24`, regenerated from `SQFS_IS_BLOCK_COMPRESSED` of the working tree's `sqfs/block.h` -/
+def rawBit : Nat := Consts.blockWordRawFlag
 
 def Word.toNat : Word → Nat
   | .sparse => 0
